@@ -3,6 +3,8 @@ import re
 
 
 def extra(fam, pid):
+    if pid in ("C08", "C09"):
+        fam.add_guards()          # the proxy-building entry points decide which operand is flagged movable (C08) and in which order operands reach the kernel (C09/C01)
     if pid == "C14":
         fam.add_guards()
         fam.add_factories(public_make_aligned=True)
